@@ -146,6 +146,18 @@ Print Assumptions C04_protected.
 Print Assumptions C04_unaddressed_unchanged.
 Print Assumptions C04_acceptance_by_addressed.
 
+(* Clause 1 and the first half of clause 2 do not depend on the stored list being well-formed: a remote
+   write that takes the Merge / SortData path of the engine (partial write with identifiers, delete-only
+   write, their combination), if accepted, keeps every element that is protected or that it does not
+   address — also when the stored list repeats an identifier or holds elements without identifier (set
+   up by the application, or by a peer's selector write whose data rewrites an identifier). *)
+Theorem C04_kept_on_any_list : forall sch l u d,
+  wf_schema sch = true -> weak_shape sch u = true ->
+  update_list sch true l (u_new u) (u_fp u) (u_fd u) = Ok (d, true) ->
+  forall y, In y l -> (changeable sch y = false \/ addressed sch false u y = false) -> In y d.
+Proof. intros sch l u d Hwf. exact (weak_write sch Hwf l u d). Qed.
+Print Assumptions C04_kept_on_any_list.
+
 (* clause 3 at the level of the store (FunctionData.UpdateData with the update-on-copy repair):
    a write that is not answered with success leaves the store exactly as it was; a write answered
    with success stores the engine's result (which is [spec_write] by C04_write_is_spec) *)
